@@ -152,6 +152,27 @@ def run_case(case, rec):
             for key, msg in dbdump.audit(fdb.path):
                 rec.violation('audit:' + key, msg)
             rec.state([S, exp_arg, sorted(m.lex)])
+        # ---- the outsiders were there first: a database in which outsiders are installed before and between the
+        # insiders (the insiders keep their relative order), then observed, then stripped of the outsiders again
+        merged = list(insiders)
+        for n in outsiders:
+            merged.insert(r.randrange(0, len(merged) + 1) if r.random() < 0.5 else 0, n)
+        merged = closure_order(merged, u)
+        with env.FreshDB():
+            m4 = ModelDB()
+            universe.install(merged, u, work, m4, rng_seed=11)
+            w = wnio.wordnet(S, exp_arg)
+            raw4 = observe(w, rec, visit)
+            q4 = _searches(w, forms, visit, rec)
+            rec.event('outsiders-first.compared')
+            # against the model of this installation order (the shared ILI inventory is the one thing outsiders may
+            # legitimately shape; the model knows who introduced an ILI first), with the same classification as above
+            _vs_model(rec, m4, S, _model_expand(m4, S, exp_arg), raw4, 'outsiders installed before/between the insiders, order '
+                      + str([universe.spec(u[n]) for n in merged]))
+            dq = diff(q1, q4)
+            if dq:
+                rec.violation('search-interference', f'S={S} expand={exp_arg}: looking up a form gives a different result when the '
+                              f'outsiders were installed first (order {[universe.spec(u[n]) for n in merged]}): ' + fmt(dq))
     finally:
         env.rmtree(work)
     rec.done([case['seed'], S, exp_arg], nontrivial=collide,
